@@ -184,6 +184,17 @@ func Drain(r io.Reader, policy string) (res Result) {
 		if err == nil {
 			res.Err = io.EOF
 		}
+	case "sniffcopy": // a short Read (a caller peeking at the content), then io.Copy for the rest
+		head := make([]byte, 16)
+		n, err := r.Read(head)
+		out.Write(head[:n])
+		if err == nil {
+			_, err = io.Copy(&out, r)
+		}
+		res.Err = err
+		if err == nil {
+			res.Err = io.EOF
+		}
 	case "copyplain": // io.Copy without WriterTo/ReaderFrom shortcuts on either side
 		_, err := io.Copy(struct{ io.Writer }{&out}, struct{ io.Reader }{r})
 		res.Err = err
@@ -229,7 +240,7 @@ func Drain(r io.Reader, policy string) (res Result) {
 	return
 }
 
-var ReadPolicies = []string{"readall", "copy", "copyplain", "buf1", "buf7", "buf65536", "buf100000", "win1000", "win70000"}
+var ReadPolicies = []string{"readall", "copy", "copyplain", "buf1", "buf7", "buf65536", "buf100000", "win1000", "win70000", "sniffcopy"}
 
 // ---------------------------------------------------------------- sources and destinations
 
